@@ -286,7 +286,7 @@ P('C12', claimed=True, level='proof',
   technique='contract-based deductive verification: class invariants + two-call lemma functions over the real method bodies, z3')
 
 P('C13', claimed=True, level='other',
-  contracts=['seq_valuepatterns', 'seq_listpatterns', 'seq_filterpatterns', 'seq_oppatterns', 'seq_eventpatterns', 'seq_morepatterns', 'seq_morefilters'], drivers=['vf.drivers.C13'],
+  contracts=['seq_valuepatterns', 'seq_listpatterns', 'seq_filterpatterns', 'seq_oppatterns', 'seq_eventpatterns', 'seq_morepatterns', 'seq_morefilters', 'base_streamconv'], drivers=['vf.drivers.C13'],
   level_text=('Generator bodies under contract with `yield` / `yield from` as ghost trace events and per-pass '
               'obligations (the inductive step of the denotation): Pseries/Pgeom (first value = start, each '
               'pass draws the step once, yields the current value, next = current (+|*) step, quiet end on '
